@@ -277,6 +277,12 @@ fn history(case: u64, args: &Args) {
             }
         }
     }
+    // an empty collection is a legitimate starting point too (GuestMemoryMmap::new / Default)
+    if r.chance(1, 4) {
+        let e = if r.chance(1, 2) { GuestMemoryMmap::<()>::new() } else { GuestMemoryMmap::<()>::default() };
+        w.maps.push((e, vec![]));
+        out::key("start|empty-map", true);
+    }
     if !w.check_all("initial") {
         return;
     }
